@@ -541,7 +541,12 @@ func doPayload(c *hx.Ctx, in input) {
 	var r pres
 	var alloc uint64
 	if in.Alloc {
-		alloc = allocOf(func() { r = runPayload(cmd, payload) })
+		for i := 0; i < 3; i++ { // keep the smallest of three measurements (a clock retry inside runPayload would add up)
+			a := allocOf(func() { r = runPayload(cmd, payload) })
+			if i == 0 || a < alloc {
+				alloc = a
+			}
+		}
 	} else {
 		r = runPayload(cmd, payload)
 	}
@@ -638,22 +643,20 @@ func doFrame(c *hx.Ctx, in input) {
 	var n1 uint32
 	var panicked bool
 	var pmsg string
-	run := func() {
-		for {
-			n1 = now1h()
-			rd := bytes.NewReader(stream)
-			panicked, pmsg = hx.Recover(func() { msg, size, err = types.ReadMessage(rd) })
-			rest = rd.Len()
-			if now1h() == n1 {
-				return
-			}
-		}
-	}
 	var alloc uint64
-	if in.Alloc {
-		alloc = allocOf(run)
-	} else {
-		run()
+	for {
+		n1 = now1h()
+		rd := bytes.NewReader(stream)
+		call := func() { panicked, pmsg = hx.Recover(func() { msg, size, err = types.ReadMessage(rd) }) }
+		if in.Alloc {
+			alloc = allocOf(call) // measured per attempt, so a retry does not add up
+		} else {
+			call()
+		}
+		rest = rd.Len()
+		if now1h() == n1 {
+			break
+		}
 	}
 	c.Count("frame-len:" + lenBucket(len(stream)))
 	// independent view of the header
@@ -760,7 +763,7 @@ func doFrame(c *hx.Ctx, in input) {
 }
 
 // doWrite: WriteMessage of a structured message against the model's write_message.
-func doWrite(c *hx.Ctx, magic uint32, m types.Message, label string) {
+func doWrite(c *hx.Ctx, magic uint32, m types.Message, label string, noAcc bool) {
 	c.Eval()
 	config.DefConfig.P2PNode.NetworkMagic = magic
 	var out []byte
@@ -783,9 +786,9 @@ func doWrite(c *hx.Ctx, magic uint32, m types.Message, label string) {
 		c.Fail("panic:frame", "ReadMessage panicked on WriteMessage output", hx.Hex(out), pm, "message")
 		return
 	}
-	if _, isOff := m.(*types.OfflineWitnessMsg); err != nil {
-		if isOff {
-			c.Count("write:offline-rejected-by-own-decoder")
+	if err != nil {
+		if noAcc {
+			c.Count("write:rejected-as-expected:" + m.CmdType())
 		} else {
 			c.Fail("reject:"+m.CmdType(), "WriteMessage output rejected by ReadMessage", hx.Hex(out), err.Error(), "accepted")
 		}
